@@ -32,7 +32,8 @@ def gen(rng, tier):
             spec = MU.gen_mirp(rng, "quick")
             spec["order"] = ["TRAVEL", "EXIT", "ENTRY"]
             spec["horizon"] = fs(min(Fraction(spec["horizon"]), Fraction(10)))
-            yield dict(mode="mirp", spec=spec, strict=rng.random() < 0.5)
+            yield dict(mode="mirp", spec=spec, strict=rng.random() < 0.5,
+                       plain_first=[f for f in ("arc", "path", "seq") if rng.random() < 0.4])
         else:
             yield dict(mode="vrptw", spec=VU.gen_vrptw(rng, nmax=4), grid=None, seed=rng.randrange(10 ** 6),
                        order=rng.sample(["arc", "path", "seqS", "seqN"], 4), heur=rng.choice(["1", "10", "1000"]))
@@ -96,8 +97,16 @@ def run_case(case, drv):
                 try:
                     np.random.seed(7)
                     getter = {"arc": m.get_arc_based, "path": m.get_path_based,
-                              "seq": lambda: m.get_sequence_based(strict=case["strict"])}[form]
-                    o = getter()
+                              "seq": lambda **kw: m.get_sequence_based(strict=case["strict"], **kw)}[form]
+                    # first request with or without the heuristic (non-default argument), then again in every way
+                    first_plain = form in case.get("plain_first", [])
+                    o = getter(make_feasible=False) if first_plain else getter()
+                    if first_plain:
+                        again0 = getter(make_feasible=False)
+                        if again0 is not o:
+                            res.fail("getter:not-idempotent", f"requesting the {form} formulation twice (make_feasible=False) returned two objects (order {order})")
+                        # (same generator flow as the default getter: the heuristic runs right after the pool was sampled)
+                        o.make_feasible(m.estimate_high_cost())
                     objs[form] = o
                     outcome[form] = "ok"
                     again = getter()
